@@ -208,6 +208,22 @@ def run(ctx: common.Ctx):
             ctx.expect(max(errs) < tol, f'resolvent-{smethod}-{vmethod}',
                        f'implicit_inverse(x - eta*implicit_terms(x)) != x: rel err {max(errs):.3e} (cond {cond:.2e})',
                        dict(base, method=smethod, vertical=vmethod))
+    # 1b. the time-reversed equation (TimeReversedImExODE: tendencies negated, step negated in the solve) is again an
+    #     equation whose implicit_inverse is the exact resolvent of ITS implicit_terms (theorem timeReversed_resolvent)
+    if abs(eta) * abs(lam_all).max() * R * tref.max() < 1e8:
+      from dinosaur import time_integration as ti_
+      rev = ti_.TimeReversedImExODE(eq)
+      with ctx.impl('resolvent-time-reversed-exception', base):
+        itr = rev.implicit_terms(state)
+        rhs_r = jax.tree_util.tree_map(lambda x, y: x - eta * y, state, itr)
+        back_r = rev.implicit_inverse(rhs_r, eta)
+        errs = [dinoutil.relerr(getattr(back_r, f), getattr(state, f))
+                for f in ('vorticity', 'divergence', 'temperature_variation', 'log_surface_pressure')]
+        cond_r = float(np.linalg.cond(pe._get_implicit_term_matrix(-eta, coords, tref, kappa, R)).max())
+        ctx.expect(max(errs) < max(1e-9, 1e-13 * cond_r), 'resolvent-time-reversed',
+                   f'TimeReversedImExODE: implicit_inverse(x - eta*implicit_terms(x)) != x: rel err {max(errs):.3e} '
+                   f'(cond {cond_r:.2e})', base)
+        ctx.case(('time-reversed', b.tobytes(), eta), nontrivial=nontriv)
     # 2. dense vs sparse vertical products
     it_d = _mk(pe, cs, sc, sh, b, tref, R, kappa, 'dense')[3].implicit_terms(state)
     it_s = _mk(pe, cs, sc, sh, b, tref, R, kappa, 'sparse')[3].implicit_terms(state)
